@@ -307,6 +307,11 @@ def fn_line(relpath, locator, root=None):
     return src.count("\n", 0, s) + 1, sha256(src[s:e])[:16]
 
 
+TABLE_STUBS = "\n".join("#[kani::stub(crate::chess::movegen::tables::%s, crate::verif_support::tstub::%s)]" % (a, b) for a, b in [
+    ("magics::rook_attacks", "rook_attacks"), ("magics::bishop_attacks", "bishop_attacks"),
+    ("knights::knight_attacks", "knight_attacks"), ("king::king_attacks", "king_attacks"),
+    ("pawns::pawn_attacks", "pawn_attacks"), ("between::between", "between")])
+
 BODY_RE = re.compile(r"^[ \t]*//@@\s*body\s*:\s*(\S+)\s*::\s*(.*?)\s*=>\s*(\w+)\s*(.*)$", re.M)
 
 
@@ -335,6 +340,7 @@ def expand_bodies(text, root, record):
         prefix = "pub " if "pub" in opts.split() else ""
         return prefix + new
 
+    text = re.sub(r"^[ \t]*//@@stubs-tables[ \t]*$", TABLE_STUBS, text, flags=re.M)
     return BODY_RE.sub(repl, text)
 
 
@@ -1027,7 +1033,10 @@ def run_kani(kani_obs, scratch, results, stage_record, extra_tests=None, playbac
         gov.acquire(ob.mem_gb)
         try:
             lf = logs / (ob.id + ".log")
+            # --no-assertion-reach-checks: Kani's per-assertion reachability covers cost one SAT call each (measured:
+            # 124 s -> 9 s on a 1000-check harness); vacuity is guarded by the harness's own kani::cover! + canaries
             cmd = ["cargo", "kani"] + KANI_FLAGS + ["-Z", "concrete-playback", "--concrete-playback=print",
+                                                   "--no-assertion-reach-checks",
                                                    "--harness", ob.fq_harness(), "--exact"]
             st, secs, peak = run_limited(cmd, stage, ob.timeout * TIME_SCALE, ob.mem_gb, lf)
             text = lf.read_text(errors="replace")
